@@ -1,5 +1,4 @@
-(* C08 - proofs, part 17: `uftrace report --task`.  For a good task (completed calls, then calls open at the end,
-   no frame of unknown address left open) the task's line shows the summed duration of its top-level calls
+(* C08 - proofs, part 17: `uftrace report --task`.  For a good task (completed calls, then calls open at the end) the task's line shows the summed duration of its top-level calls
    (Total = Self, adjust_task_runtime) and the number of counted calls. *)
 From Coq Require Import NArith ZArith List Bool Lia Arith Sorting.Sorted Permutation.
 Require Import ZifyBool ZifyN ZifyNat.
@@ -47,14 +46,13 @@ Qed.
 Lemma trace_nolost tt : Forall (fun r => is_lost r = false) (trace_recs tt).
 Proof. unfold trace_recs. apply Forall_app. split; [apply flat_forest_nolost|apply flat_open_nolost]. Qed.
 
-(* add_remaining_task_fstack against add_remaining_fstack: the same durations when no open frame has address 0 *)
-Lemma remaining_task_self last : forall stk extra, Forall (fun s => s_addr s <> 0) stk ->
-  map w_self (remaining_task_from last extra stk) = map w_self (remaining_from false last extra stk).
+(* add_remaining_task_fstack against add_remaining_fstack: the same durations *)
+Lemma remaining_task_self last : forall stk extra,
+  map w_self (remaining_task_from false last extra stk) = map w_self (remaining_from false last extra stk).
 Proof.
-  induction stk as [|top rest IH]; intros extra Hnz; [reflexivity|].
-  inversion Hnz as [|? ? Ht Hr]; subst. cbn [remaining_task_from remaining_from].
-  replace (s_addr top =? 0) with false by lia. cbn [orb].
-  destruct (last <? s_total top); [apply IH, Hr|]. cbn [map w_self]. f_equal. apply IH, Hr.
+  induction stk as [|top rest IH]; intros extra; [reflexivity|].
+  cbn [remaining_task_from remaining_from andb orb].
+  destruct (last <? s_total top); [apply IH|]. cbn [map w_self]. f_equal. apply IH.
 Qed.
 
 Lemma fold_self_sum l : forall a, a + sumN (map w_self l) < M64 ->
@@ -87,11 +85,11 @@ Proof.
 Qed.
 
 Theorem task_line_good max_stack tt :
-  good_task max_stack tt -> Forall (fun o => o_addr o <> 0) (tt_open tt) ->
+  good_task max_stack tt ->
   sumN (map w_self (spec_task tt)) < M64 ->
   task_line max_stack (trace_recs tt) = (top_time tt, N.of_nat (length (spec_task tt))).
 Proof.
-  intros Hg Hnz Hb.
+  intros Hg Hb.
   pose proof (task_rows_good max_stack tt Hg) as P.
   pose proof (top_time_good max_stack tt Hg) as Htop.
   destruct (trace_recs tt) as [|r0 rs0] eqn:Etr.
@@ -108,12 +106,10 @@ Proof.
   rewrite E in HL, HX. cbn [fst mid t_last t_lastx] in HL, HX.
   assert (map w_self (task_rows max_stack (trace_recs tt))
           = map w_self (concat (map (rows64 []) (tt_done tt)) ++ okids_rows [] (tt_open tt)
-                        ++ remaining_task lx2 (rev (map oslot (tt_open tt))))) as Hs.
+                        ++ remaining_task false lx2 (rev (map oslot (tt_open tt))))) as Hs.
   { unfold task_rows, task_rows_gen. fold (init_state max_stack). rewrite E. cbn [mid t_last t_live].
     rewrite <- app_assoc, !map_app. do 2 f_equal. unfold remaining_task, remaining.
-    rewrite HX, <- HL. symmetry. apply remaining_task_self.
-    apply Forall_forall. intros sl Hsl. apply in_rev in Hsl. apply in_map_iff in Hsl. destruct Hsl as (o & <- & Ho).
-    rewrite Forall_forall in Hnz. cbn. apply Hnz, Ho. }
+    rewrite HX, <- HL. symmetry. apply remaining_task_self. }
   unfold task_line. rewrite E. cbn [mid t_lastx t_live].
   rewrite <- app_assoc, fold_self_map, <- Hs.
   assert (sumN (map w_self (task_rows max_stack (trace_recs tt))) = top_time tt) as Hsum.
